@@ -7,12 +7,15 @@ def prove(res, pid, extra_targets=()):
     """Compile Props/Properties_<pid>.v; record obligations; on failure record a
     violation that names what no longer checks (a concrete failing input, if the
     correspondence finds one, is reported separately)."""
-    regen = common.regenerate()
+    # translate-and-check is one critical section: checks running at the same time (possibly against different
+    # source trees via VERIF_REPO) must not see each other's generated files
+    with common.Lock("prove"):
+        regen = common.regenerate()
+        pr = common.coq_props(pid, extra_targets)
     res.cov["translators"] = regen["summary"]
     for m in regen["missing"]:
         res.violation("translator-missing:" + re.sub(r"[^A-Za-z0-9]+", "_", m)[:60],
                       "a (T) translator no longer finds what it expects in /repo's source: " + m, {"missing": m}, no_input=True)
-    pr = common.coq_props(pid, extra_targets)
     res.cov["obligations"] = pr["obligations"]
     res.cov["discharged"] = pr["discharged"]
     res.cov["theorems"] = pr["names"]
